@@ -527,7 +527,21 @@ def _fixup_follows(body, sink_blk, kind):
 def flw5(ctx):
     r = RuleResult("FLW-5", "no possibly-empty syllable is stored into a word; every removal of a segment from a syllable in a word is followed by an emptiness check (or keeps a copy)", floor=63)
     lib = ctx.lib
-    interp = [b for b in lib.bodies if not b.in_test_mod() and b.kind != "closure" and b.path.startswith(("asca::subrule::", "asca::syll::", "asca::rule::"))]
+    # helpers of the interpreter that are handed a syllable (or its segment deque) by `&mut` are expanded into their callers:
+    # the typestate and the pairing analysis are intra-procedural
+    from facts import inline_mir
+    SYLPTR = ("&mut asca::syll::Syllable", "&mut alloc::collections::vec_deque::VecDeque<asca::seg::Segment>")
+
+    def _helper(cb):
+        return cb.path.startswith("asca::subrule::") and cb.kind in ("fn", "assoc_fn") and any(t in SYLPTR for t in cb.param_tys) and not cb.param_tys[0].endswith("SubRule")
+    helpers = {b.path for b in lib.bodies if not b.in_test_mod() and _helper(b)}
+
+    def _expand(b):
+        if helpers and any((callee_path(t) or "") in helpers for _, t in b.calls()):
+            return inline_mir(lib, b, _helper)
+        return b
+    interp = [_expand(b) for b in lib.bodies if not b.in_test_mod() and b.kind != "closure" and b.path.startswith(("asca::subrule::", "asca::syll::", "asca::rule::"))
+              and b.path not in helpers]
     word_fns = [b for b in lib.bodies if not b.in_test_mod() and b.kind != "closure" and b.path.startswith("asca::word::")]
     n_sinks = n_rem = 0
     # ---------------- 5a
